@@ -231,19 +231,36 @@ pub fn run(ctx: &Ctx) -> Outcome {
                 3 => {
                     // short number-like phrases straight into the validator (the only caller of exec_group)
                     let k = 1 + rng.usize(4);
-                    let phrase: String = (0..k)
-                        .map(|_| match rng.below(10) {
-                            0 | 1 => lex.conj.to_string(),
-                            2 => lex.zero.to_string(),
-                            3 if !lex.ordinal_words.is_empty() => rng.pick(&lex.ordinal_words).clone(),
-                            _ => rng.pick(&lex.number_words).clone(),
-                        })
-                        .collect::<Vec<_>>()
-                        .join(" ");
+                    let phrase: String = if rng.chance(1, 3) {
+                        // a complete spelled number of any size in any claimed variant (the long glued words of de / nl / it
+                        // included), cardinal or ordinal
+                        let nd = 1 + rng.below(12) as u32;
+                        let n = crate::gen::random_number(&mut rng, nd);
+                        if rng.chance(1, 4) && n >= 1 && n <= spell::info(code).ord_max {
+                            let os = spell::ordinals(code, n);
+                            if os.is_empty() { spell::cardinal(code, n) } else { os[rng.usize(os.len())].text.clone() }
+                        } else {
+                            let vs = spell::cardinal_variants(code, n);
+                            vs[rng.usize(vs.len())].text.clone()
+                        }
+                    } else {
+                        (0..k)
+                            .map(|_| match rng.below(10) {
+                                0 | 1 => lex.conj.to_string(),
+                                2 => lex.zero.to_string(),
+                                3 if !lex.ordinal_words.is_empty() => rng.pick(&lex.ordinal_words).clone(),
+                                _ => rng.pick(&lex.number_words).clone(),
+                            })
+                            .collect::<Vec<_>>()
+                            .join(" ")
+                    };
                     crate::core::set_current(code, "facade vs concrete (phrase)", &phrase);
                     rep.eval(hash_bytes(&[code.as_bytes(), b"p", phrase.as_bytes()]), true);
                     for (name, o) in &others {
                         let (va, vb) = (conc.validate(&phrase), o.validate(&phrase));
+                        if let Some(msg) = diff_text(conc, *o, &phrase) {
+                            rep.violation(&format!("{}:phrase-text:{}", code, name), jobj! {"kind" => "text", "lang" => code, "text" => phrase.as_str()}, format!("[{} via {}] {}", code, name, msg));
+                        }
                         if va != vb {
                             rep.violation(&format!("{}:phrase:{}", code, name), jobj! {"kind" => "text", "lang" => code, "text" => phrase.as_str()}, format!("[{} via {}] text2digits({:?}): concrete {:?} vs other {:?}", code, name, phrase, va, vb));
                         }
